@@ -10,7 +10,10 @@ history length.
   is the one synthesised from an asymmetric `<`; for strict total element orders they form a strict
   total order with its derived relations.  For `double` elements (NaN unordered) the header's relations equal
   `std::pair`'s exactly outside the input class `Spec.unorderedPair` and differ on every input inside it.
-  Tuple `==` is list equality for every arity, 0 included.
+  Nothing links `==` to `<` in `pair_rels_eq_synth3`; the key + payload element (`<` on the key, `==` on key and payload)
+  is an instance (`pair_rels_kp`) on which a tie decided by `==` differs from [pairs.spec] (`pair_lt_via_eq_differs`).
+  Tuple `==` is list equality for every arity, 0 included, and for an arbitrary element `==` the conjunction of the
+  element comparisons (`tuple_eq_by`).  (etl::tuple has no `<`, `<=`, `>`, `>=`; the property claims equality only.)
 * tuple_cat of any number of tuples is their concatenation; no read out of range.
 * calls: `invoke`, `reference_wrapper`, `function_ref`, `bind_front`, `not_fn`, `apply` never fail and their
   outcome satisfies the predicate `Spec.CalledOnce`: one log entry, for the wrapped target, called through the
@@ -147,6 +150,43 @@ theorem pair_rels_eq_synth3 (eq1 : α → α → Bool) (eq2 : β → β → Bool
 
 example : Asymm (fun a b : Int => decide (a < b)) := by
   intro x y h; simp at h ⊢; omega
+
+/-! ### an element type whose `==` is finer than the equivalence of its `<` (key + payload, `KP` of the harness)
+
+`pair_rels_eq_synth3` assumes NOTHING that links `eq` to `lt`: `<, <=, >, >=` go through `lt` only, `==, !=` through `eq`
+only.  Over `int` (equivalent = equal) a tie on `first` decided by `==` cannot be told from one decided by "neither is
+less"; the key + payload element tells them apart. -/
+
+/-- the key order of the key + payload element is asymmetric ... -/
+theorem kpLt_asymm : Asymm Spec.kpLt := by
+  intro x y h; simp [Spec.kpLt] at h ⊢; omega
+
+/-- ... and its `==` is strictly finer than the equivalence the order induces: 2 and 3 are equivalent, not equal -/
+theorem kp_equivalent_not_equal :
+    Spec.kpLt 2 3 = false ∧ Spec.kpLt 3 2 = false ∧ Spec.kpEq 2 3 = false := by decide
+
+/-- the six relations of `pair<KP, T>` as the header computes them are the C++20 ones (`T`: any type with an asymmetric
+    `<`; `pair<T, KP>` and `pair<KP, KP>` are instances of `pair_rels_eq_synth3` in the same way) -/
+theorem pair_rels_kp (eq2 : β → β → Bool) {lt2 : β → β → Bool} (h2 : Asymm lt2) (a b : Int × β) :
+    Spec.modelRels Spec.kpEq eq2 Spec.kpLt lt2 a b
+      = Spec.pairRels Spec.kpEq eq2 (Spec.synth3 Spec.kpLt) (Spec.synth3 lt2) a b :=
+  pair_rels_eq_synth3 Spec.kpEq eq2 kpLt_asymm h2 a b
+
+/-- deciding the tie on `first` by `==` is NOT [pairs.spec]: `(KP{1,0}, 1) < (KP{1,1}, 2)` holds, the one-liner
+    `x.first < y.first || (x.first == y.first && x.second < y.second)` says false -/
+theorem pair_lt_via_eq_differs :
+    pairLt Spec.kpLt (fun x y : Int => decide (x < y)) (2, 1) (3, 2) = true ∧
+    Spec.pairLtViaEq Spec.kpEq Spec.kpLt (fun x y : Int => decide (x < y)) (2, 1) (3, 2) = false := by decide
+
+/-- ... and no element type with a strict total order whose equivalence is `==` (`int`) can show it -/
+theorem pair_lt_via_eq_same_of_total {eq1 lt1 : α → α → Bool} (h1 : StrictTotal eq1 lt1) (lt2 : β → β → Bool) (a b : α × β) :
+    Spec.pairLtViaEq eq1 lt1 lt2 a b = pairLt lt1 lt2 a b := by
+  unfold Spec.pairLtViaEq pairLt
+  have hir := h1.irrefl
+  have hasym := h1.asymm
+  have htri := h1.tri a.1 b.1
+  have heq := h1.eq_iff a.1 b.1
+  cases e1 : lt1 a.1 b.1 <;> cases e2 : lt1 b.1 a.1 <;> cases e3 : eq1 a.1 b.1 <;> cases e4 : lt2 a.2 b.2 <;> simp_all
 
 /-- `double` elements, exact form: the header's six relations equal those of `std::pair<double,double>` (through
     `<=>` with `partial_ordering`) on an input **iff** the input is outside the class `Spec.unorderedPair`. -/
@@ -302,6 +342,32 @@ theorem tuple_eq_iff (a b : List Int) (hlen : a.length = b.length) :
 
 example : ([1, 2] : List Int).length = [1, 3].length := by decide
 example : tupleEq (fun x y : Int => x == y) [] [] = .ok true := rfl
+
+/-- tuple `==` for an ARBITRARY element `==` (nothing assumed about it: not reflexive, not related to any `<`): the fold of
+    the header never fails on equal arity and is [tuple.rel]'s "`get<i>(t) == get<i>(u)` for all `i`", arity 0 included -/
+theorem tuple_eq_by (eq : α → α → Bool) (a b : List α) (hlen : a.length = b.length) :
+    tupleEq eq a b = .ok (Spec.tupleEqBy eq a b) := by
+  have hfold : ∀ (a b : List α), a.length = b.length → eqFold eq a b = .ok (Spec.tupleEqBy eq a b) := by
+    intro a
+    induction a with
+    | nil => intro b h; cases b with
+      | nil => rfl
+      | cons y ys => simp at h
+    | cons x xs ih => intro b h; cases b with
+      | nil => simp at h
+      | cons y ys =>
+        have := ih ys (by simpa using h)
+        simp [eqFold, this, bind, Except.bind, Spec.tupleEqBy]
+  by_cases h0 : a.length = 0
+  · have ha : a = [] := List.length_eq_zero_iff.mp h0
+    have hb : b = [] := List.length_eq_zero_iff.mp (by omega)
+    subst ha; subst hb
+    simp [tupleEq, Spec.tupleEqBy]
+  · have hb : ¬ b.length = 0 := by omega
+    simp [tupleEq, hlen, hb, hfold a b hlen]
+
+/-- a tuple of key + payload elements with equivalent, unequal elements is not equal -/
+example : tupleEq Spec.kpEq [2, 1] [3, 1] = .ok false := rfl
 
 end rel
 
